@@ -25,6 +25,7 @@ def env_setup():
         sys.path.insert(0, REPO)
     os.environ['PYTHONPATH'] = REPO + os.pathsep + VERIF
     os.environ['PYTHONDONTWRITEBYTECODE'] = '1'
+    os.environ['PYTHONHASHSEED'] = '0'       # inherited by the spawned workers
     return tmp
 
 
@@ -131,6 +132,7 @@ def run_replay(path, timeout=120):
     env = dict(os.environ)
     env['PYTHONPATH'] = REPO + os.pathsep + VERIF
     env['PYTHONDONTWRITEBYTECODE'] = '1'
+    env['PYTHONHASHSEED'] = '0'
     env.pop('MIASMX_VERIF', None)
     try:
         p = subprocess.run([REAL_PY, path], env=env, capture_output=True, text=True, timeout=timeout)
